@@ -47,6 +47,7 @@ func runC01(c *Ctx) {
 	errorListOnce(c)
 	valueWithVariables(c)
 	c01Small(c)
+	nilListIsNullOnly(c)
 }
 
 // c01SelectionsPrivate: the merged sub-selection of a collected field is a slice private to that CollectFields call.  Fields
